@@ -49,10 +49,33 @@ type tBroker struct {
 	r      *rand.Rand
 	pFault int // per cent of tagged requests that get a fault
 	slow   time.Duration
+	smu    sync.Mutex
+	script map[int]string // tag → scripted fault (overrides the random choice)
+}
+
+func (b *tBroker) scripted(tag int) (string, bool) {
+	b.smu.Lock()
+	defer b.smu.Unlock()
+	f, ok := b.script[tag]
+	return f, ok
+}
+
+func (b *tBroker) setScript(tag int, f string) {
+	b.smu.Lock()
+	if b.script == nil {
+		b.script = map[int]string{}
+	}
+	b.script[tag] = f
+	b.smu.Unlock()
 }
 
 func (b *tBroker) dial(ctx context.Context, network, address string) (net.Conn, error) {
-	cl, sv := net.Pipe()
+	// kernel-buffered connection: a request can be written while the broker is still busy with (or late on) the
+	// previous one, as over TCP
+	cl, sv, err := socketpair()
+	if err != nil {
+		return nil, err
+	}
 	j := &tJournal{conn: sv}
 	b.mu.Lock()
 	k := len(b.conns)
@@ -122,6 +145,9 @@ func (b *tBroker) serve(conn net.Conn, j *tJournal, r *rand.Rand) {
 		if tag != 0 && r.Intn(100) < b.pFault {
 			f = []string{"delay", "drop", "badid", "close", "late", "delay", "late", "late"}[r.Intn(8)]
 		}
+		if sf, ok := b.scripted(tag); ok {
+			f = sf
+		}
 		switch f {
 		case "drop":
 			continue
@@ -143,7 +169,11 @@ func (b *tBroker) serve(conn net.Conn, j *tJournal, r *rand.Rand) {
 	}
 }
 
-func transportScenario(r *rand.Rand, thorough bool) {
+// transportScenario runs one Transport scenario.  lateFamily: every goroutine issues PAIRS of requests of the
+// same kind to the same broker — the first with a context deadline shorter than the scripted delay of its
+// answer (the answer is sent late, after the caller gave up), the second right afterwards with a different
+// tag and a generous deadline.
+func transportScenario(r *rand.Rand, thorough bool, lateFamily bool) {
 	b := &tBroker{r: rand.New(rand.NewSource(r.Int63())), pFault: []int{0, 15, 35}[r.Intn(3)], slow: time.Duration(80+r.Intn(60)) * time.Millisecond}
 	tr := &kafka.Transport{Dial: b.dial, MetadataTTL: 24 * time.Hour, IdleTimeout: time.Hour, ClientID: "c06"}
 	addr := kafka.TCP("broker1:9092")
@@ -159,6 +189,11 @@ func transportScenario(r *rand.Rand, thorough bool) {
 	}
 	nG := 2 + r.Intn(6)
 	perG := 1 + r.Intn(4)
+	if lateFamily {
+		b.pFault = 0
+		nG = 1 + r.Intn(3)
+		perG = 2 * (1 + r.Intn(3))
+	}
 	tagBase := 1000 + r.Intn(1000)*100
 	var mu sync.Mutex
 	var results []callRes
@@ -182,6 +217,14 @@ func transportScenario(r *rand.Rand, thorough bool) {
 				plans[i].timeout = 400 * time.Millisecond
 			default:
 				plans[i].timeout = 400 * time.Millisecond
+			}
+		}
+		if lateFamily {
+			for i := 0; i+1 < len(plans); i += 2 {
+				k := []string{"offsets", "coord"}[r.Intn(2)]
+				plans[i] = plan{kind: k, timeout: time.Duration(15+r.Intn(25)) * time.Millisecond}
+				plans[i+1] = plan{kind: k, timeout: 600 * time.Millisecond}
+				b.setScript(tagBase+g*10+i, "late")
 			}
 		}
 		go func(g int) {
@@ -327,6 +370,7 @@ func transportScenarios(r *rand.Rand, thorough bool) {
 		n = 600
 	}
 	for i := 0; i < n; i++ {
-		transportScenario(r, thorough)
+		transportScenario(r, thorough, i%3 == 0)
+		out.Flush()
 	}
 }
